@@ -204,9 +204,19 @@ inline DecodeResult ref_decode(const Bytes &file) {
         l = c.u32(); if (c.left() < l) return bad("chunk_length"); p.def = c.take(l);
         int es = type_elem_size(p.type_name);
         p.known_type = es != 0;
-        if (es > 0 && p.def.size() != (size_t)es) return bad("chunk_length");
-        if (es == -2 && (p.def.size() != 1 || p.def[0] > 1)) return bad("encoding");
-        if (es == -1) { if (p.def.size() < 4) return bad("chunk_length"); R d(p.def.data(), p.def.size()); uint32_t sl = d.u32(); if (d.left() != sl) return bad("chunk_length"); }
+        // a default blob that is too short for its type is inconsistent; one with trailing bytes is not judged
+        if (es > 0 && p.def.size() < (size_t)es) return bad("chunk_length");
+        if (es > 0 && p.def.size() > (size_t)es) return unj("default_blob_trailing_bytes");
+        if (es == -2 && p.def.size() < 1) return bad("chunk_length");
+        if (es == -2 && p.def[0] > 1) return bad("encoding");
+        if (es == -2 && p.def.size() > 1) return unj("default_blob_trailing_bytes");
+        if (es == -1) {
+          if (p.def.size() < 4) return bad("chunk_length");
+          R d(p.def.data(), p.def.size());
+          uint32_t sl = d.u32();
+          if (d.left() < sl) return bad("chunk_length");
+          if (d.left() > sl) return unj("default_blob_trailing_bytes");
+        }
         m.props.push_back(p);
         prop_filled.push_back(0);
       }
